@@ -21,7 +21,7 @@ RULE = ("cycle: all multigraphs (mult<=2, <=6 edges) on <=4 vertices up to isomo
         "one evaluation = one solve()/find_answer observed; distinct by (function, graph/frame, subset, encoding)")
 ASSUMPTIONS = ["z3 decides the posted program correctly (SAT re-validated by M-SOLVE)",
                "primitive route: stand-in semantics of graph-active-vertices-connected on the line graph"]
-REQUIRED = ["cyc.cases", "cyc.want.valid", "cyc.want.invalid", "cyc.passed_checked", "cyc.primitive", "cyc.frame", "cyc.parallel",
+REQUIRED = ["cyc.big_frames", "cyc.long_cycle_graphs", "cyc.big_cycle_len_ge20", "cyc.cases", "cyc.want.valid", "cyc.want.invalid", "cyc.passed_checked", "cyc.primitive", "cyc.frame", "cyc.parallel",
             "cyc.accepted_set_solves", "path.cases", "path.want.valid", "path.want.invalid", "path.frame", "cyc.empty_subset", "cyc.form.const", "cyc.form.mixed",
             "path.form.const"]
 
@@ -63,13 +63,13 @@ def judge(ctx, tag, s, passed_vars, pattern, n, edges, want, be, desc):
             ctx.violation(f"{tag}:passed-array-wrong:{enc}", f"returned array {got} != visited vertices {vis}", ctx.current_case)
 
 
-def graph_case(ctx, fn, n, edges, prim, be, rng):
+def graph_case(ctx, fn, n, edges, prim, be, rng, patterns=None):
     g = D.mk_graph(n, edges)
     m = len(edges)
     tag = "cyc" if fn == "cycle" else "path"
     desc = {"fn": fn, "n": n, "edges": [list(e) for e in edges], "primitive": prim}
     work = []
-    for pattern in D.all_patterns(m):
+    for pattern in (patterns if patterns is not None else D.all_patterns(m)):
         work.append((pattern, "var"))
         r = rng.random()
         if r < 0.25:
@@ -179,6 +179,67 @@ def frame_accepted(ctx, h, w):
     ctx.count("cyc.frame")
 
 
+def big_stage(ctx, rng, be, thorough):
+    """Frames and graphs too large to enumerate: long simple cycles (the rank range of the auxiliary encoding must cover half their
+    length), and their near misses - two disjoint cycles, a cycle with a gap (a path), a cycle with an extra chord segment."""
+    from ..refs import planted
+
+    for t in range(2 if not thorough else 30):
+        h, w = rng.choice([(5, 5), (6, 6), (4, 8), (7, 7), (3, 10), (6, 5)])
+        segs = L.segments(h, w)
+        pid = lambda q: q[0] * (w + 1) + q[1]  # noqa
+        n, edges = L.as_graph(h, w)
+        eidx = {frozenset(e): k for k, e in enumerate(edges)}
+
+        def pat(cyc):
+            p = [0] * len(segs)
+            for a, b in cyc:
+                p[eidx[frozenset((pid(a), pid(b)))]] = 1
+            return p
+
+        pats = []
+        c1 = planted.random_cycle(rng, h + 1, w + 1, min_faces=max(2, (h * w) // 2))
+        p1 = pat(c1)
+        pats.append(tuple(p1))
+        if sum(p1) >= 20:
+            ctx.count("cyc.big_cycle_len_ge20")
+        gap = list(p1)
+        gap[rng.choice([k for k, v in enumerate(p1) if v])] = 0
+        pats.append(tuple(gap))
+        chord = list(p1)
+        chord[rng.choice([k for k, v in enumerate(p1) if not v])] = 1
+        pats.append(tuple(chord))
+        # two small cycles in opposite corners
+        two = [0] * len(segs)
+        for (y0, x0) in ((0, 0), (h - 1, w - 1)):
+            for a, b in (((y0, x0), (y0, x0 + 1)), ((y0 + 1, x0), (y0 + 1, x0 + 1)), ((y0, x0), (y0 + 1, x0)), ((y0, x0 + 1), (y0 + 1, x0 + 1))):
+                two[eidx[frozenset((pid(a), pid(b)))]] = 1
+        pats.append(tuple(two))
+        with ctx.guard(300):
+            frame_pointwise(ctx, "cycle", h, w, False, be, pats)
+        ctx.count("cyc.big_frames")
+    for t in range(2 if not thorough else 20):
+        n = rng.randint(14, 26)
+        order = list(range(n))
+        rng.shuffle(order)
+        edges = [(order[i], order[(i + 1) % n]) for i in range(n)]
+        extra = [tuple(rng.sample(range(n), 2)) for _ in range(3)]
+        e2 = D.scramble(rng, edges + extra)
+        on = {frozenset(e) for e in edges}
+        full = tuple(1 if frozenset(e) in on else 0 for e in e2)
+        # the n-cycle itself; with one edge missing; with a chord added (if the chord is not parallel to a cycle edge)
+        miss = list(full)
+        miss[full.index(1)] = 0
+        pats = [full, tuple(miss)]
+        if 0 in full:
+            ch = list(full)
+            ch[full.index(0)] = 1
+            pats.append(tuple(ch))
+        with ctx.guard(300):
+            graph_case(ctx, "cycle", n, e2, False, be, rng, patterns=pats)
+        ctx.count("cyc.long_cycle_graphs")
+
+
 def run(ctx):
     rng = ctx.rng
     msolve.install(ctx, owner="C01", brute_cap=256)
@@ -228,6 +289,7 @@ def run(ctx):
                     frame_pointwise(ctx, "cycle", 2, 2, True, be, sub[::4])
                     frame_pointwise(ctx, "path", 2, 2, True, be, sub[::4])
         ctx.count("time_ms." + str(item[0]) + ("." + str(item[1]) if item[0] in ("g", "f") else ""), int((_t.time() - _t0) * 1000))
+    big_stage(ctx, rng, be, thorough)
     ctx.sample({"fn": "cycle", "frame": [1, 1], "pattern": [1, 1, 1, 1], "definition": True, "visited": [True] * 4})
     mwire.uninstall()
     msolve.uninstall()
